@@ -45,6 +45,7 @@ func runChain(prop string) {
 		case "C08":
 			opt.Hooks = []chainx.Hook{adapt(chainh.ContextHook)}
 			opt.OnlyHooks = true
+			opt.Differential = true
 		}
 		if run.Tier == "thorough" && (sc.Name == "healthy/all-forks" || prop == "C02") {
 			opt.K = 2
